@@ -241,15 +241,17 @@ prop("C08", ["literals", "lex_strings"],
      not_covered="float text round trip, date/time/interval literals, f-string lowering, relation literal rows, "
                  "dialects whose string literals treat backslash as an escape (finding F9: not under contract)")
 claim("C08",
-      "PARTIAL. Proved on the real code: translate_literal emits a string / raw string as SingleQuotedString with exactly the same characters for every "
-      "dialect and every content (TL1s, TL1r), integers / floats as the std rendering of the same value, booleans and null exactly (TL1i, TL1f, TL1b, "
+      "PARTIAL. Proved on the real code: translate_literal emits a string / raw string as SingleQuotedString whose payload is the content with every quote "
+      "doubled - what a SQL lexer reads back as the content, and what sqlparser's printer leaves alone - for every dialect and every content (TL1s, TL1r); the SQL "
+      "formatter is only run over text it tokenizes correctly, so formatting never alters a literal (FM1-2); integers / floats as the std rendering of the same value, booleans and null exactly (TL1i, TL1f, TL1b, "
       "TL1n); the lexer's number conversion yields the i64 the digits spell when they fit, otherwise the f64 they spell, and the 0 fallback only for "
       "text that is neither (LN1-3); the string lexer (parse_escape_sequence and the body of multi_quoted_string, verbatim): \\n \\r \\t \\b \\f \\\\ \\/ and the "
       "escaped quote denote the documented character and consume one character (ES2a), \\xHH and \\u{H..} with 1-6 digits denote the character with that code "
       "and consume exactly the escape (ES2b-c), an unescaped string opened by n quotes is the text up to the FIRST run of n quotes, verbatim (MQ2, any n, any "
       "length), every loop terminates and only moves forward (ES1, ES4, MQ1, MQL). NOT proved: float formatting round trip, backslash-escaping dialects, "
       "content of escaped strings beyond one escape.",
-      "sqlparser's Display (quote doubling) is trusted; str::parse and format! are uninterpreted; date/time/interval arms are not under contract.")
+      "sqlparser's Display (leaves doubled quotes alone - read in its source, validated by the thorough-tier sweep on SQLite) and sqlformat (white space only, given "
+      "its precondition) are trusted; str::parse, str::replace and format! are uninterpreted; date/time/interval arms are not under contract.")
 
 prop("C07", ["set_ops", "limit_clause", "literals", "rel_names", "sql_prec"], select={"literals": lambda n: n.split(".", 1)[1] in ("EI1", "expr_of_i64.safety"), "sql_prec": lambda n: n.split(".", 1)[1].startswith("NP4.std_neg") or n.endswith(".safety")},
      not_covered="scope of every table / column reference, per-dialect grammar, empty projections, relation alias uniqueness (assign_names), "
